@@ -14,9 +14,12 @@ import io
 from harness import core, histcheck, isoapi
 from harness.props import c01
 
-LEAN_MODULES = ['Pycdlib.Props.C09']
-THEOREMS = ['Pycdlib.joliet_decode_encode', 'Pycdlib.joliet_fits', 'Pycdlib.units16_le_utf8', 'Pycdlib.utf16_one']
-PARTIAL = {'joliet_indep / joliet_shares': 'decided per history by the Spec/reader comparison (independent maps per namespace, blob-id vs extent partition)'}
+LEAN_MODULES = ['Pycdlib.Props.C09', 'Pycdlib.Props.C09Indep']
+THEOREMS = ['Pycdlib.joliet_decode_encode', 'Pycdlib.joliet_fits', 'Pycdlib.units16_le_utf8', 'Pycdlib.utf16_one',
+            'Pycdlib.Spec.other_ns_untouched']
+PARTIAL = {'joliet_indep / joliet_shares': 'independence of the namespaces is proved for the specification (other_ns_untouched: an edit that names '
+           'nothing in a namespace leaves its entries as they were); that pycdlib refines the specification, and the sharing of data sectors '
+           '(blob-id vs extent partition), are decided per history by the Spec/reader comparison'}
 TRUSTED = ['CPython utf-8 / utf-16_be codecs as Model/Unicode encoders (compared on every sampled scalar)']
 ASSUMPTIONS = []
 RULE = c01.RULE + '; Joliet forced'
